@@ -211,6 +211,58 @@ def run(x):
         out.append((b, acc))
     return out
 '''),
+    ("N12 module-level arithmetic constant over another constant", "numeric_constants_folded", '''
+TOL_ZZ = 0.25
+LIMIT_ZZ = 1.0 - TOL_ZZ
+def clipflag(vals):
+    return [abs(v) > LIMIT_ZZ for v in vals]
+def run(x):
+    return clipflag([x, 0.7, 0.76, -0.9, 0.75])
+'''),
+    ("N15 tail call of a private method", "tail_method_calls_inlined", '''
+class G:
+    def __init__(self): self._ds = {}; self.n = 0
+    @property
+    def area(self):
+        if "area" in self._ds:
+            return self._ds["area"]
+        return self._cache_area_zz(3)
+    def _cache_area_zz(self, k):
+        """doc"""
+        self.n += 1
+        v = [self.n * k]
+        self._ds["area"] = v
+        if k > 5:
+            return None
+        return self._ds["area"]
+    def touch(self, k):
+        if k:
+            return self._bump_zz()
+        return -1
+    def _bump_zz(self):
+        self.n += 10
+def run(x):
+    g = G()
+    return [g.area, g.area, g.touch(x), g.touch(0), g.n]
+'''),
+    ("N13 selector METHOD assigned to an attribute, non-simple argument in the root test", "selector_helpers_inlined", '''
+class Box:
+    pass
+class G:
+    def __init__(self, g): self.g = g
+    def _pick_zz(self, deep):
+        """doc"""
+        if not deep:
+            return self.g
+        return list(self.g)
+    def cp(self, **kw):
+        out = Box()
+        out.g = self._pick_zz(kw.get("deep"))
+        return (out.g == self.g, out.g is self.g)
+def run(x):
+    g = G([x, 1])
+    return [g.cp(), g.cp(deep=True), g.cp(deep=0)]
+'''),
 ]
 
 
